@@ -7,7 +7,7 @@ ASSUMPTIONS = ['each shared access between two synchronisation calls is atomic (
 
 
 def main(tier, seed, replay=None):
-    ck, ok = CC.run_property("C03", tier, seed, replay, ['produce', 'produce', 'consume_eof', 'consume_eof', 'consume', 'produce_raise', 'halfclose'], lambda s: s.startswith(('no-repeated-EOFError', 'concurrent-receivers-do-not', 'waitclose-', 'closing-side-state', 'peer-state-after-observed-close', 'items-before-', 'after-exec-end', 'items-differ', 'items-lost', 'close-from-send-only', 'halfclose-', 'items-sent-in-send-only')), None, ASSUMPTIONS, extra=EXTRA)
+    ck, ok = CC.run_property("C03", tier, seed, replay, ['produce', 'produce', 'consume_eof', 'consume_eof', 'consume', 'produce_raise', 'halfclose'], lambda s: s.startswith(('no-repeated-EOFError', 'concurrent-receivers-do-not', 'waitclose-', 'closing-side-state', 'peer-state-after-observed-close', 'items-before-', 'after-exec-end', 'items-differ', 'items-lost', 'close-from-send-only', 'halfclose-', 'items-sent-in-send-only', 'after-remote-error')), None, ASSUMPTIONS, extra=EXTRA)
     try:
         from props import chan_model
 
